@@ -460,6 +460,8 @@ func (fs *readOnlyFsInternal) populateFS(bundle *core.Bundle) (*ReadOnlyFS, erro
 	if err := fs.insertDirEntry(txns, fuseops.RootInodeID, *dirFsEntry); err != nil {
 		return nil, err
 	}
+	// the root directory can be listed even when the bundle holds no entry
+	fs.readDirMap[fuseops.RootInodeID] = make([]fuseutil.Dirent, 0)
 
 	fs.l.Info("Populating fs", zap.Int("entryCount", len(fs.bundle.BundleEntries)))
 	if err := populateFSAddBundleEntries(&populate{fs: fs, bundle: bundle, txns: txns}); err != nil {
